@@ -5,7 +5,7 @@
    from the Go source on every run (coq/Gen/). *)
 From Coq Require Import ZArith Bool String List.
 From Ice Require Import Model.Wrap Model.PrioSpec Model.PrioModel Model.Foundation Gen.Consts Gen.Prio Gen.Names
-     Proofs.PrioProofs Proofs.PrioInjective Proofs.FoundationProofs.
+     Proofs.PrioProofs Proofs.PrioInjective Proofs.PrioLex Proofs.FoundationProofs.
 Local Open Scope Z_scope.
 
 (* priority = 2^24*tp + 2^8*lp + (256 - component) with the stated tp / lp tables *)
@@ -34,6 +34,24 @@ Print Assumptions C17_range.
 Theorem C17_priority_override : forall ov tp lp comp, ov <> 0 -> Priority ov tp lp comp = ov.
 Proof. exact priority_override. Qed.
 Print Assumptions C17_priority_override.
+
+(* the formula read as an order: candidates are ordered lexicographically by (type preference,
+   local preference, lower component first), and the priority determines the three of them,
+   for every type preference 0..126, local preference 0..65535 and component 1..256 *)
+Theorem C17_priority_lexicographic : forall tp lp comp tp' lp' comp',
+  0 <= tp <= 126 -> 0 <= lp <= 65535 -> 1 <= comp <= 256 ->
+  0 <= tp' <= 126 -> 0 <= lp' <= 65535 -> 1 <= comp' <= 256 ->
+  (Priority 0 tp lp comp < Priority 0 tp' lp' comp' <->
+   tp < tp' \/ (tp = tp' /\ (lp < lp' \/ (lp = lp' /\ comp' < comp)))).
+Proof. exact priority_lexicographic. Qed.
+Print Assumptions C17_priority_lexicographic.
+
+Theorem C17_priority_injective : forall tp lp comp tp' lp' comp',
+  0 <= tp <= 126 -> 0 <= lp <= 65535 -> 1 <= comp <= 256 ->
+  0 <= tp' <= 126 -> 0 <= lp' <= 65535 -> 1 <= comp' <= 256 ->
+  Priority 0 tp lp comp = Priority 0 tp' lp' comp' -> tp = tp' /\ lp = lp' /\ comp = comp'.
+Proof. exact priority_injective. Qed.
+Print Assumptions C17_priority_injective.
 
 (* min*(2^32-1) + 2*max + (g > d), no overflow of uint64 *)
 Theorem C17_pair_no_overflow : forall ctl l r,
